@@ -269,3 +269,182 @@ def answered_request_is_never_retransmitted(retries: int, timeout: int, finishin
     ensures("answer-re-arms-the-timeout", h._start_time == clock_now())
     h.loop(sock)
     ensures("no-further-transmission-once-answered", both(len(sock.sends) == 0, h._retry_count == retries))
+
+
+# ------------------------------------------------------ nothing escapes an engine step
+import socket as _socket_mod
+from geckolib.spa import GeckoSpa
+
+
+class RxWire(Wire):
+    """what the OS may answer to recvfrom: 0 timeout, 1 OS error, 2 any other failure, 3 a datagram"""
+
+    def __init__(self, mode, data):
+        Wire.__init__(self)
+        self.mode = mode
+        self.data = data
+
+    def recvfrom(self, size):
+        if self.mode == 0:
+            raise _socket_mod.timeout("timed out")
+        if self.mode == 1:
+            raise OSError("network is down")
+        if self.mode == 2:
+            raise ValueError("unexpected")
+        return (self.data, ("10.0.0.9", 10022))
+
+
+class Touchy:
+    """a registered handler that fails where told: 1 in can_handle, 2 in handle, 3 in handled; 0 nowhere"""
+    log = []
+
+    def __init__(self, where):
+        self.where = where
+        self.should_remove_handler = False
+
+    def can_handle(self, data, sender):
+        Touchy.log.append("can_handle")
+        if self.where == 1:
+            raise ValueError("can_handle failed")
+        return True
+
+    def handle(self, data, sender):
+        Touchy.log.append("handle")
+        if self.where == 2:
+            raise ValueError("handle failed")
+
+    def handled(self, sender):
+        Touchy.log.append("handled")
+        if self.where == 3:
+            raise ValueError("handled failed")
+
+
+@harness(prop="C20", target="geckolib.driver.udp_socket:GeckoUdpSocket._process_received_data")
+def receive_step_contains_every_failure(mode: int, where: int, data: bytes):
+    requires(both(0 <= mode, mode <= 3, 0 <= where, where <= 3))
+    mode = concrete_cases(mode, 0, 3)
+    where = concrete_cases(where, 0, 3)
+    Touchy.log = []
+    s = make_socket(RxWire(mode, data))
+    s._receive_handlers = [Touchy(where)]
+    escaped = False
+    try:
+        s._process_received_data()
+    except Exception:
+        escaped = True
+    ensures("no-exception-leaves-the-receive-step", not escaped)
+    ensures("engine-not-left-busy", s._busy_count == 0)
+    ensures("handlers-stay-registered", len(s._receive_handlers) == 1)
+    if mode != 3:
+        ensures("nothing-dispatched-without-a-datagram", Touchy.log == [])
+    else:
+        want = [["can_handle", "handle", "handled"], ["can_handle"], ["can_handle", "handle"], ["can_handle", "handle", "handled"]][where]
+        ensures("datagram-dispatched-exactly-once", Touchy.log == want)
+    cover("failing-can_handle", both(mode == 3, where == 1))
+
+
+class ExitEvent:
+    def __init__(self, is_set):
+        self._set = is_set
+
+    def is_set(self):
+        return self._set
+
+
+class StructStub:
+    def __init__(self, had):
+        self.had_at_least_one_block = had
+
+
+class Connects:
+    calls = 0
+
+
+@summary("geckolib.spa:GeckoSpa._final_connect", name="final_connect_contract", assumed=True,
+         note="ASSUMED: with both structure classes present (they are set before the status block is requested) "
+              "_final_connect builds the accessors, marks the spa connected and returns; its body is C18/C12 territory")
+def final_connect_contract(self):
+    requires(both(self.new_config_class is not None, self.new_log_class is not None))
+    Connects.calls += 1
+    self._is_connected = True
+
+
+@harness(prop="C20", target="geckolib.spa:GeckoSpa._loop_func", uses=["final_connect_contract"])
+def engine_hook_never_raises_and_finishes_the_handshake_once(connected: bool, is_open: bool, had_block: bool):
+    """the per-iteration hook runs on the engine thread outside every try: at ANY time since the connection started"""
+    spa = new(GeckoSpa)
+    spa._is_connected = connected
+    spa.is_in_error = False
+    started = fresh_time("started")
+    assume(started <= clock_now())                         # however long the handshake has been going on
+    spa._connection_started = started
+    spa._exit_event = ExitEvent(not is_open)
+    spa.struct = StructStub(had_block)
+    spa.new_config_class = object() if had_block else None  # invariant: a block is only requested once both classes exist
+    spa.new_log_class = object() if had_block else None
+    Connects.calls = 0
+    escaped = False
+    try:
+        spa._loop_func()
+    except Exception:
+        escaped = True
+    ensures("no-exception-leaves-the-engine-hook", not escaped)
+    ensures("handshake-finished-exactly-when-the-block-is-complete",
+            Connects.calls == (1 if (not connected and is_open and had_block) else 0))
+    ensures("hook-never-flags-an-error", not spa.is_in_error)
+    cover("handshake-longer-than-the-connection-timeout", both(not connected, clock_now() - started > 100))
+
+
+# ------------------------------------------- handshake chain: each answered step starts the next, once
+from contracts import c18_naming
+from geckolib.driver.protocol.getchannel import GeckoGetChannelProtocolHandler
+from geckolib.driver.protocol.configfile import GeckoConfigFileProtocolHandler
+
+
+class VersionReply:
+    en_build = 1
+    en_major = 2
+    en_minor = 3
+    co_build = 4
+    co_major = 5
+    co_minor = 6
+
+
+class ChannelReply:
+    channel = 7
+    signal_strength = 60
+
+
+@harness(prop="C20", target="geckolib.spa:GeckoSpa._on_version_received")
+def answered_step_starts_exactly_the_next_step(step: int, p: int):
+    """version -> channel -> config: the reply callback registers ONE handler for the next request and queues ONE send
+    of it to the replying spa, with a protocol-range sequence number and a bounded retry budget"""
+    requires(both(0 <= step, step <= 1, 0 <= p, p <= 191))
+    step = concrete_cases(step, 0, 1)
+    spa = c18_naming.blocking_spa()
+    spa._sequence_counter_protocol = p
+    sender = ("10.0.0.9", 10022, b"SPA", b"IOS")
+    if step == 0:
+        spa._on_version_received(VersionReply(), sender)
+        want_cls = GeckoGetChannelProtocolHandler
+        verb = b"CURCH"
+        ensures("firmware-versions-recorded", both(spa.intouch_version_en == "1 v2.3", spa.intouch_version_co == "4 v5.6"))
+    else:
+        spa._on_channel_received(ChannelReply(), sender)
+        want_cls = GeckoConfigFileProtocolHandler
+        verb = b"SFILE"
+        ensures("channel-recorded", both(spa.channel == 7, spa.signal == 60))
+    ensures("one-handler-registered-and-the-same-one-queued-once",
+            both(len(spa._receive_handlers) == 1, len(spa._send_handlers) == 1,
+                 spa._send_handlers[0][0] is spa._receive_handlers[0], spa._send_handlers[0][1] == sender))
+    h = spa._receive_handlers[0]
+    seq = ite(p == 191, 1, p + 1)
+    ensures("next-request-kind-and-sequence", both(isinstance(h, want_cls), h._content == verb + bytes([seq])))
+    ensures("request-has-a-timeout-and-a-retry-budget-and-is-removed-when-it-runs-out",
+            both(h._timeout_in_seconds > 0, h._retry_count > 0, h._on_retry_failed is not None))
+    ensures("its-answer-continues-the-chain",
+            h._on_handled == (spa._on_channel_received if step == 0 else spa._on_config_received))
+
+
+harness(prop="C20", cases="c18_all_platforms_together", target="geckolib.spa:GeckoSpa._on_config_received",
+        name="config_step_requests_the_full_block_once", timeout=600)(c18_naming.blocking_handshake_selects_exactly_the_reported_tables)
